@@ -110,7 +110,7 @@ Lemma step_ne : forall c s o s', Inv s -> NE (tabs s) -> step true c s o = Val s
 Proof.
   intros c s o s' I H. destruct o as [b bytes|bg orc| |]; cbn [step].
   - unfold ingest. destruct (c_max_wal_bytes c <? wal_size s); [discriminate|].
-    destruct (prepare (c_seed c) b (tabs s) [] []) as [[[l1 created] colrows]| | | |] eqn:Ep; cbn [bind]; try discriminate.
+    destruct (prepare code_seed b (tabs s) [] []) as [[[l1 created] colrows]| | | |] eqn:Ep; cbn [bind]; try discriminate.
     destruct (apply_batch _ l1) as [l2| | | |] eqn:Ea; cbn [bind]; try discriminate.
     intro E. injection E as <-. cbn [tabs]. intro n.
     eapply ne_appended; [apply (apply_batch_view _ _ _ Ea n)|].
@@ -127,9 +127,9 @@ Proof.
     eapply ne_flush_tables; [|exact E1]. eapply ne_map; [apply freeze_parts|exact H|exact E0].
   - intro E. injection E as <-. exact H.
   - intro R. destruct (recover_spec _ _ _ I R) as [I' _]. revert R. unfold recover.
-    destruct (restore_tables (c_seed c) (tabs s)) as [l0| | | |] eqn:E0; cbn [bind]; try discriminate.
-    destruct (create_if_empty (c_seed c) s_meta_tables l0) as [l1 b1] eqn:E1.
-    destruct (replay (c_seed c) _ None l1) as [l2| | | |] eqn:E2; cbn [bind]; try discriminate.
+    destruct (restore_tables code_seed (tabs s)) as [l0| | | |] eqn:E0; cbn [bind]; try discriminate.
+    destruct (create_if_empty code_seed s_meta_tables l0) as [l1 b1] eqn:E1.
+    destruct (replay code_seed _ None l1) as [l2| | | |] eqn:E2; cbn [bind]; try discriminate.
     intro E. injection E as <-. cbn [tabs]. intro n.
     destruct (replay_spec _ _ _ _ _ E2) as [_ A]. eapply ne_appended; [apply A|].
     eapply ne_modc; [apply (grows_view _ _ (grows_create _ _ _ _ _ E1) n)|].
@@ -340,8 +340,8 @@ Proof.
     - eapply sort_segs_sorted. apply (i_ids _ I).
     - intros x HI. apply N.leb_le. rewrite Ecur. eapply seqN_ge. rewrite <- (i_ids _ I). apply in_map. exact HI. }
   rewrite Ekeep.
-  destruct (restore_tables_total (c_seed c) (tabs s) (i_keys _ I) (i_tabs _ I)) as [l0 E0]. rewrite E0. cbn [bind].
-  destruct (create_if_empty (c_seed c) s_meta_tables l0) as [l1 b1] eqn:E1.
+  destruct (restore_tables_total code_seed (tabs s) (i_keys _ I) (i_tabs _ I)) as [l0 E0]. rewrite E0. cbn [bind].
+  destruct (create_if_empty code_seed s_meta_tables l0) as [l1 b1] eqn:E1.
   destruct (c_wal _ C) as [pre Epre].
   destruct (restore_tables_spec _ _ _ (i_keys _ I) (i_tabs _ I) E0) as [ND0 H0].
   destruct (create_if_empty_spec _ _ _ _ _ E1) as [_ [C2 [C3 [C4 _]]]].
@@ -368,7 +368,7 @@ Proof.
         * unfold create_if_empty in E1. rewrite L0 in E1. injection E1 as <- _.
           rewrite lookup_app_new, L0, name_eqb_refl in L. injection L as <-. cbn [t_cols empty_table]. apply seed_cols_some.
         * rewrite (C3 _ L0 Hne') in L. discriminate. }
-  assert (S1 : SeededT (c_seed c) l1).
+  assert (S1 : SeededT code_seed l1).
   { eapply seededT_create; [|exact E1]. eapply seededT_restore; eauto. }
   (* a restored client table has a restored catalogue table *)
   assert (Hh : has_cat l1).
@@ -397,7 +397,7 @@ Proof.
     exists tm0. apply C2. exact Lm0. }
   assert (LOK : log_ok (pre ++ map (fun x => sg_data (snd x)) (d_wal s))).
   { fold (wal_log s). rewrite <- Epre. apply (c_log _ C). }
-  destruct (replay_total (c_seed c) _ _ _ pre None l1 (i_ids _ I) (or_introl eq_refl) LOK R1 S1 Hh) as [l2 E2].
+  destruct (replay_total code_seed _ _ _ pre None l1 (i_ids _ I) (or_introl eq_refl) LOK R1 S1 Hh) as [l2 E2].
   rewrite E2. cbn [bind]. eauto.
 Qed.
 
